@@ -1,0 +1,223 @@
+//! Verification seams. Compiled only with `--cfg rre_verif`; never part of a normal build.
+//!
+//! The module holds two thread-local call-back slots (clock, file system) and thin shims
+//! with the same surface as the `std` items they stand in for. With no call-back installed
+//! on the current thread every shim forwards to the real `std` item, so a hooked build
+//! without a simulator behaves exactly like the shipped crate. The simulator itself is not
+//! in this crate.
+
+use std::cell::RefCell;
+use std::io;
+use std::path::PathBuf;
+
+/// Which clock a read is for
+#[derive(Debug, Clone, Copy, PartialEq, Eq)]
+pub enum ClockKind {
+    /// `SystemTime::now()`; the call-back returns nanoseconds since the UNIX epoch
+    Wall,
+    /// `Instant::now()`; the call-back returns nanoseconds since an arbitrary fixed base
+    Monotonic,
+    /// `chrono::Utc::now()`; the call-back returns nanoseconds since the UNIX epoch
+    Utc,
+}
+
+/// A file-system call about to be made
+#[derive(Debug, Clone, PartialEq, Eq)]
+pub enum FsOp {
+    /// `fs::create_dir_all`
+    CreateDirAll(PathBuf),
+    /// `fs::remove_dir_all`
+    RemoveDirAll(PathBuf),
+    /// `fs::File::create`
+    Create(PathBuf),
+    /// `fs::File::open`
+    Open(PathBuf),
+    /// one `Write::write` call with a buffer of `len` bytes
+    Write {
+        /// file
+        path: PathBuf,
+        /// buffer length
+        len: usize,
+    },
+    /// one `Read::read` call with a buffer of `len` bytes
+    Read {
+        /// file
+        path: PathBuf,
+        /// buffer length
+        len: usize,
+    },
+    /// `Write::flush`
+    Flush(PathBuf),
+}
+
+/// What the simulator wants the shim to do with a call
+#[derive(Debug, Clone, PartialEq, Eq)]
+pub enum FsDecision {
+    /// perform the real call
+    Proceed,
+    /// do nothing and return this error
+    Fail(io::ErrorKind),
+    /// read/write at most this many bytes (other calls: same as `Proceed`)
+    Short(usize),
+}
+
+type ClockFn = Box<dyn FnMut(ClockKind) -> u64>;
+type FsFn = Box<dyn FnMut(&FsOp) -> FsDecision>;
+
+thread_local! {
+    static CLOCK: RefCell<Option<ClockFn>> = const { RefCell::new(None) };
+    static FS: RefCell<Option<FsFn>> = const { RefCell::new(None) };
+}
+
+/// Install (or remove) the simulated clock of the current thread
+pub fn set_clock(f: Option<ClockFn>) {
+    CLOCK.with(|c| *c.borrow_mut() = f);
+}
+
+/// Install (or remove) the simulated disk of the current thread
+pub fn set_fs(f: Option<FsFn>) {
+    FS.with(|c| *c.borrow_mut() = f);
+}
+
+fn read_clock(kind: ClockKind) -> Option<u64> {
+    CLOCK.with(|c| c.borrow_mut().as_mut().map(|f| f(kind)))
+}
+
+fn decide(op: FsOp) -> FsDecision {
+    FS.with(|c| match c.borrow_mut().as_mut() {
+        Some(f) => f(&op),
+        None => FsDecision::Proceed,
+    })
+}
+
+/// Stand-in for `std::time::SystemTime` where only `now()` is used
+pub struct SystemTime;
+
+impl SystemTime {
+    /// Simulated or real wall clock
+    #[allow(clippy::new_ret_no_self)]
+    pub fn now() -> std::time::SystemTime {
+        system_time_now()
+    }
+}
+
+/// Simulated or real wall clock
+pub fn system_time_now() -> std::time::SystemTime {
+    match read_clock(ClockKind::Wall) {
+        Some(ns) => std::time::UNIX_EPOCH + std::time::Duration::from_nanos(ns),
+        None => std::time::SystemTime::now(),
+    }
+}
+
+/// Simulated or real monotonic clock
+pub fn instant_now() -> std::time::Instant {
+    use std::sync::OnceLock;
+    static BASE: OnceLock<std::time::Instant> = OnceLock::new();
+    match read_clock(ClockKind::Monotonic) {
+        Some(ns) => *BASE.get_or_init(std::time::Instant::now) + std::time::Duration::from_nanos(ns),
+        None => std::time::Instant::now(),
+    }
+}
+
+/// Simulated or real `Utc::now()`
+pub fn utc_now() -> chrono::DateTime<chrono::Utc> {
+    match read_clock(ClockKind::Utc) {
+        Some(ns) => chrono::DateTime::<chrono::Utc>::from_timestamp(
+            (ns / 1_000_000_000) as i64,
+            (ns % 1_000_000_000) as u32,
+        )
+        .unwrap_or_else(chrono::Utc::now),
+        None => chrono::Utc::now(),
+    }
+}
+
+/// Stand-in for the parts of `std::fs` that `streaming::state` uses
+pub mod fs {
+    use super::{decide, FsDecision, FsOp};
+    use std::io::{self, Read, Write};
+    use std::path::{Path, PathBuf};
+
+    /// `std::fs::create_dir_all`
+    pub fn create_dir_all<P: AsRef<Path>>(path: P) -> io::Result<()> {
+        match decide(FsOp::CreateDirAll(path.as_ref().to_path_buf())) {
+            FsDecision::Fail(kind) => Err(io::Error::from(kind)),
+            _ => std::fs::create_dir_all(path),
+        }
+    }
+
+    /// `std::fs::remove_dir_all`
+    pub fn remove_dir_all<P: AsRef<Path>>(path: P) -> io::Result<()> {
+        match decide(FsOp::RemoveDirAll(path.as_ref().to_path_buf())) {
+            FsDecision::Fail(kind) => Err(io::Error::from(kind)),
+            _ => std::fs::remove_dir_all(path),
+        }
+    }
+
+    /// `std::fs::File` restricted to create/open + `Read`/`Write`
+    pub struct File {
+        inner: std::fs::File,
+        path: PathBuf,
+    }
+
+    impl File {
+        /// `std::fs::File::create`
+        pub fn create<P: AsRef<Path>>(path: P) -> io::Result<File> {
+            let path = path.as_ref().to_path_buf();
+            match decide(FsOp::Create(path.clone())) {
+                FsDecision::Fail(kind) => Err(io::Error::from(kind)),
+                _ => Ok(File {
+                    inner: std::fs::File::create(&path)?,
+                    path,
+                }),
+            }
+        }
+
+        /// `std::fs::File::open`
+        pub fn open<P: AsRef<Path>>(path: P) -> io::Result<File> {
+            let path = path.as_ref().to_path_buf();
+            match decide(FsOp::Open(path.clone())) {
+                FsDecision::Fail(kind) => Err(io::Error::from(kind)),
+                _ => Ok(File {
+                    inner: std::fs::File::open(&path)?,
+                    path,
+                }),
+            }
+        }
+    }
+
+    impl Write for File {
+        fn write(&mut self, buf: &[u8]) -> io::Result<usize> {
+            match decide(FsOp::Write {
+                path: self.path.clone(),
+                len: buf.len(),
+            }) {
+                FsDecision::Fail(kind) => Err(io::Error::from(kind)),
+                FsDecision::Short(k) => self.inner.write(&buf[..k.min(buf.len())]),
+                FsDecision::Proceed => self.inner.write(buf),
+            }
+        }
+
+        fn flush(&mut self) -> io::Result<()> {
+            match decide(FsOp::Flush(self.path.clone())) {
+                FsDecision::Fail(kind) => Err(io::Error::from(kind)),
+                _ => self.inner.flush(),
+            }
+        }
+    }
+
+    impl Read for File {
+        fn read(&mut self, buf: &mut [u8]) -> io::Result<usize> {
+            match decide(FsOp::Read {
+                path: self.path.clone(),
+                len: buf.len(),
+            }) {
+                FsDecision::Fail(kind) => Err(io::Error::from(kind)),
+                FsDecision::Short(k) => {
+                    let k = k.min(buf.len());
+                    self.inner.read(&mut buf[..k])
+                }
+                FsDecision::Proceed => self.inner.read(buf),
+            }
+        }
+    }
+}
